@@ -265,6 +265,57 @@ def wide(seed, count, tag='WIDE'):
         yield case(f'{tag}{mode}', rows, m, SCHEMES[k % len(SCHEMES)], rng)
 
 
+def tall(seed, count, tag='TALL'):
+    """Many objects (40-220), few properties (2-6), dense, with duplicate / conjunction /
+    full columns and duplicate rows: large extents relative to the number of properties."""
+    rng = random.Random(f'{seed}/{tag}')
+    for k in range(count):
+        n, m = rng.randint(40, 220), rng.randint(2, 6)
+        d = rng.choice([.5, .7, .85, .95, .98])
+        rows = rnd_rows(rng, n, m, d)
+        for deco in rng.sample(['meet_col', 'dup_col', 'full_col', 'dup_row', 'meet_col', 'empty_col'],
+                               rng.randint(1, 3)):
+            rows, m = decorate(rows, m, deco, rng)
+        c = case(tag, rows, m, SCHEMES[k % len(SCHEMES)], rng)
+        if k % 2:       # the transposed shape: few objects, many properties
+            cols = [sum(((rows[i] >> j) & 1) << i for i in range(len(rows))) for j in range(m)]
+            c = case(tag + 'T', cols, len(rows), SCHEMES[k % len(SCHEMES)], rng)
+        yield c
+
+
+def manyrows(seed, count, tag='MANYROWS'):
+    """130-400 objects with (mostly) pairwise distinct rows over 8-9 properties, plus copies
+    of early rows appended far away: duplicates separated by > 128 distinct rows."""
+    rng = random.Random(f'{seed}/{tag}')
+    for k in range(count):
+        n, m = rng.randint(130, 400), rng.randint(8, 9)
+        pool = rng.sample(range(1 << m), min(n, (1 << m) - 1))
+        rows = [pool[i % len(pool)] for i in range(n)]
+        for _ in range(rng.randint(1, 4)):
+            rows.append(rows[rng.randrange(0, 20)])
+        if k % 3 == 0:
+            rows.insert(rng.randrange(len(rows)), (1 << m) - 1)
+        yield case(tag, rows, m, SCHEMES[k % len(SCHEMES)], rng)
+
+
+def huge(seed, count, tag='HUGE'):
+    """Thousands of members on one axis (2 900 - 6 500), a handful on the other; rows drawn
+    from a few patterns so that the lattice stays tiny.  Reaches bit positions far beyond
+    machine words and beyond float precision."""
+    rng = random.Random(f'{seed}/{tag}')
+    for k in range(count):
+        big, small = rng.randint(2900, 6500), rng.randint(2, 5)
+        pats = [rng.getrandbits(small) for _ in range(rng.randint(2, 4))]
+        rows = [rng.choice(pats) for _ in range(big)]
+        for _ in range(6):      # a few special rows anywhere, in particular near the end
+            rows[rng.randrange(big * 9 // 10, big)] = rng.getrandbits(small)
+        if k % 2 == 0:
+            yield case(tag + '-tall', rows, small, 'plain')
+        else:
+            cols = [sum(((rows[i] >> j) & 1) << i for i in range(big)) for j in range(small)]
+            yield case(tag + '-wide', cols, big, 'plain')
+
+
 def near(cases_, seed, per=3, tag='NEAR'):
     """One-cell flips and row/column swaps of given cases."""
     rng = random.Random(f'{seed}/{tag}')
@@ -293,22 +344,32 @@ def near(cases_, seed, per=3, tag='NEAR'):
 # --------------------------------------------------------------------------
 # the standard context stream used by the lattice-family properties
 
-def ctx_stream(tier, seed, *, scale=1.0, with_wide=True, max_rnd=None):
+def ctx_stream(tier, seed, *, scale=1.0, with_wide=True, max_rnd=None, with_huge=False):
     """Deterministic list of table cases for (tier, seed)."""
     if tier == 'quick':
         yield from exh(3, 3)
         yield from rnd(seed, int(3200 * scale), *(max_rnd or (9, 9)))
         yield from struct(seed, [2, 3, 4, 5, 6])
+        yield from tall(seed, int(60 * scale))
         if with_wide:
             yield from wide(seed, int(48 * scale))
+        yield from manyrows(seed, int(12 * scale))
+        if with_huge:
+            yield from huge(seed, 2)
     else:
         yield from exh(3, 3)
-        yield from exh(0, 0, sizes=[(3, 4), (4, 3)])
-        yield from rnd(seed, int(20000 * scale), *(max_rnd or (14, 14)))
-        yield from rnd(seed, int(8000 * scale), 7, 7, tag='RNDs')
-        yield from struct(seed, [2, 3, 4, 5, 6, 7, 8, 9, 10])
+        yield from exh(0, 0, sizes=[(3, 4), (4, 3), (4, 4)] if scale >= 1 else [(3, 4), (4, 3)])
+        yield from rnd(seed, int(50000 * scale), *(max_rnd or (14, 14)))
+        yield from rnd(seed, int(20000 * scale), 7, 7, tag='RNDs')
+        structs = list(struct(seed, [2, 3, 4, 5, 6, 7, 8, 9, 10]))
+        yield from structs
+        yield from near(structs[::3], seed, per=int(3 * scale) or 1)
+        yield from tall(seed, int(2000 * scale))
         if with_wide:
-            yield from wide(seed, int(400 * scale))
+            yield from wide(seed, int(1200 * scale))
+        yield from manyrows(seed, int(300 * scale))
+        if with_huge:
+            yield from huge(seed, max(2, int(16 * scale)))
 
 
 def table_key(c):
@@ -324,7 +385,11 @@ def bools_of(c):
 # argument samplers
 
 def subsets_of(items, rng, *, all_below=10, sampled=40):
-    """All subsets when few items, else {}, singletons, all, and random ones."""
+    """All subsets when few items, else {}, singletons, all, and random ones.
+
+    On long axes (> 48 items) the singletons are sampled: every word/digit boundary
+    position, the last positions and a random sample - so that high bit positions are
+    reached within a small call budget."""
     items = list(items)
     n = len(items)
     if n <= all_below:
@@ -332,11 +397,18 @@ def subsets_of(items, rng, *, all_below=10, sampled=40):
             yield [items[i] for i in range(n) if mask >> i & 1]
         return
     yield []
-    for x in items:
-        yield [x]
+    if n <= 48:
+        singles = range(n)
+    else:
+        pos = {p for p in BOUNDARY_POS if p < n} | {n - 1, n - 2, n // 2}
+        pos |= {rng.randrange(n) for _ in range(24)}
+        pos |= {rng.randrange(n * 9 // 10, n) for _ in range(12)}
+        singles = sorted(pos)
+    for i in singles:
+        yield [items[i]]
     yield items
     for _ in range(sampled):
-        k = rng.choice([2, 3, rng.randint(1, n), max(1, n - 2)])
+        k = rng.choice([2, 3, rng.randint(1, min(n, 40)), max(1, n - 2)])
         yield rng.sample(items, min(k, n))
 
 
